@@ -35,6 +35,7 @@ fn main() {
     };
     let out = arg(&args, "--out");
     svh::panics::install();
+    svh::watch::configure(out.clone(), &prop, ctx.tier(), ctx.seed, ctx.shard, &ctx.build);
     let started = Instant::now();
     let mut rep = Report::new(&prop, ctx.tier(), ctx.seed, ctx.shard);
     let threads: usize = arg(&args, "--threads").and_then(|s| s.parse().ok()).unwrap_or(0);
@@ -50,7 +51,14 @@ fn main() {
             .build()
             .unwrap()
     };
-    let known = rt.block_on(async { dispatch(&prop, &ctx, &mut rep).await });
+    let known = match rt.block_on(async { svh::panics::catch_async(dispatch(&prop, &ctx, &mut rep)).await }) {
+        Ok(k) => k,
+        Err(p) => {
+            // a panic that no monitor caught: a harness defect or an unguarded call, never a verdict
+            eprintln!("uncaught panic at {}:{}: {} (first repo frame: {})", p.file, p.line, p.message, p.repo_frame);
+            std::process::exit(101);
+        }
+    };
     if !known {
         eprintln!("unknown property {}", prop);
         std::process::exit(2);
